@@ -2,6 +2,7 @@ import YardlModel.WireJson
 import YardlModel.Streams
 import YardlModel.Batch
 import YardlModel.Expr
+import YardlModel.Imports
 
 /-! Line-protocol driver for the wire engine: one JSON request per line on stdin, one JSON
     reply per line on stdout. -/
@@ -218,6 +219,22 @@ def handle (j : Json) : Except String Json := do
     let op ← binOpOfString (← (← j.getObjVal? "op").getStr?)
     let child ← binOpOfString (← (← j.getObjVal? "child").getStr?)
     pure (Json.mkObj [("left", Json.bool (emitParenLeft tgt op child)), ("right", Json.bool (emitParenRight tgt op child))])
+  | "collect" =>
+    let pk ← (← j.getObjVal? "world").getArr?
+    let pk ← pk.toList.mapM fun e => do
+      let ns ← jNat (← e.getObjVal? "ns")
+      let imps ← (← e.getObjVal? "imports").getArr?
+      let imps ← imps.toList.mapM jNat
+      pure (Imports.Pkg.mk ns imps)
+    let limit ← jNat (← j.getObjVal? "limit")
+    let root ← jNat (← j.getObjVal? "root")
+    let w : Imports.World := fun d => pk[d]?
+    match Imports.load w limit root with
+    | .ok c => pure (Json.mkObj [("verdict", "ok"), ("namespaces", Json.arr (c.map (fun x => jn x.1)).toArray)])
+    | .error e =>
+      let s := match e with
+        | .missing => "missing" | .cycle => "cycle" | .conflict => "conflict" | .depth => "depth"
+      pure (Json.mkObj [("verdict", Json.str s)])
   | "cos" =>
     let lang ← (← j.getObjVal? "lang").getStr?
     let cap ← jNat (← j.getObjVal? "cap")
